@@ -27,6 +27,15 @@ CHECKS = {
             "Theorems are about Model/Value.lean and Model/Tmpl.lean; the branch structure of the conversion (wrap vs widen, integral-double bound) and the "
             "lazy/greedy flag of the regex are regenerated from value.rs/convert.rs on every run. QuickJS and String::replace are compared, not proved.",
             "5 C14"),
+    "C18": ("Lean 4 K2 theorems over all strings for the pattern forms of the glob specification (*, literal, prefix*, ?, class, alternation), K1 theorem "
+            "on the filter shape read from is_match, K3 lemmas on the keyed handler maps + differential runs against globset and per-channel delivery logs",
+            "globset itself is outside the model: Glob.matchToks is its executable specification, compared on generated pattern/string pairs; the "
+            "pattern parser of the driver is tested, not proved. `**` and nested alternations are not generated.", "5 C18"),
+    "C19": ("Lean 4 K3 theorems over all rule lists, start times and event histories with arbitrary clocks (never early, at most once, within one tick, "
+            "not after terminal, firing keeps open) + theorem that the specification monitor accepts every model history; the monitor is evaluated "
+            "on the engine's observations under a virtual clock; firing-by-firing correspondence with the model",
+            "Model/Timeout.lean transcribes hook.rs/do_tick; its comparison operator, multiplier, unit table and the open-task filter of do_tick are "
+            "regenerated from the source. The production ticker and wall-clock time are not exercised.", "5 C19"),
 }
 
 NOT_YET = {}
